@@ -15,6 +15,8 @@ type c01Scenario struct {
 	Syms []string `json:"syms"`
 	Cfg  aofCfg   `json:"cfg"`
 	Max  int      `json:"max_ticks"`
+	Preempt bool  `json:"preempt,omitempty"`
+	Plan []string `json:"plan,omitempty"` // preemption plan: "<file:line>#<occurrence>" wake-up statements of syncer/output.go
 }
 
 var c01Alphabet = []string{"w1", "w2", "we", "wx", "d", "df", "mf", "s1", "s0", "sb", "t1", "t2", "ts", "p", "g", "b", "bc", "f", "h", "n"}
@@ -106,14 +108,58 @@ func runC01(t *testing.T, rep *mc.Reporter) {
 			}
 		})
 	}
+	// ---- preemption family: default feeding schedule, every wake-up statement of syncer/output.go
+	// (close, channel send, go, Unlock, Done, Close) reached is a point at which the running
+	// goroutine may be held back until all others block; all placements of up to pbound preemptions
+	pbound := 1
+	pstreams := [][]string{{"w1", "t2"}, {"s1", "w1"}, {"t2", "p"}, {"w1", "df"}}
+	if tier == "thorough" {
+		pbound = 2
+		pstreams = append(pstreams, []string{"w1", "w2", "t2"}, []string{"ts", "w1", "p"}, []string{"t2", "t2", "s1"})
+	}
+	for _, ps := range pstreams {
+		for _, cfg := range quickCfgs {
+			idx++
+			if idx%nshards != shard || budget.Expired() {
+				continue
+			}
+			scn := c01Scenario{Syms: append([]string{"s0"}, ps...), Cfg: cfg, Max: 1, Preempt: true}
+			rep.Scenario()
+			explorePreempt(rep, budget, pbound, func(plan []string, res mc.Result) {
+				s := scn
+				s.Plan = plan
+				rep.Exec(s, nil, res)
+			}, func(plan []string) (mc.Result, []string, []string) {
+				s := scn
+				s.Plan = plan
+				return c01ExecPlan(t, s, mc.NewChooser(nil))
+			})
+		}
+	}
 	if budget.Expired() {
 		rep.Capped("deadline reached before all scenarios were explored")
 	}
 }
 
 func c01Exec(t *testing.T, scn c01Scenario, ch *mc.Chooser) mc.Result {
-	var res mc.Result
+	r, _, _ := c01ExecPlan(t, scn, ch)
+	return r
+}
+
+// c01ExecPlan: with scn.Plan the wake-up statements of syncer/output.go named in the plan hold
+// their goroutine back until everything else has run until it blocked.
+func c01ExecPlan(t *testing.T, scn c01Scenario, ch *mc.Chooser) (res mc.Result, seen, hit []string) {
 	msg := bubble(t, func() {
+		if scn.Plan != nil || scn.Preempt {
+			pre := installPreempt(scn.Plan)
+			pre.armed = true
+			curPre = pre
+			defer func() {
+				seen, hit = pre.seen, pre.hit
+				curPre = nil
+				pre.remove()
+			}()
+		}
 		env := newAofEnv(t)
 		items := buildStream(scn.Syms)
 		ro := NewRedisOutput(scn.Cfg.outputConfig("redis-gunyu-checkpoint"))
@@ -153,7 +199,7 @@ func c01Exec(t *testing.T, scn c01Scenario, ch *mc.Chooser) mc.Result {
 		res = mc.OK(obs, len(got) > 0, env.events)
 	})
 	if msg != "" {
-		return mc.Result{Verdict: "machinery", Clause: "bubble: " + msg}
+		return mc.Result{Verdict: "machinery", Clause: "bubble: " + msg}, seen, hit
 	}
-	return res
+	return res, seen, hit
 }
